@@ -54,7 +54,8 @@ CONSTANTS
   WCat,       \* mean: catalogue of per-RDM weight vectors (length >= 3)
   WECat,      \* mean: catalogue of per-entry weight matrices (>= 3 rows of length >= LEN)
   Factors,    \* rescale: integer scale factors
-  EmitMod     \* emit one terminal state in EmitMod
+  EmitMod,    \* emit one terminal state in EmitMod ...
+  EmitAligned \* ... but one in EmitAligned of the compare states whose masks are aligned (none / common)
 
 VARIABLES inp, pc, out
 vars == <<inp, pc, out>>
@@ -372,7 +373,7 @@ ConnectedShares == (Mode = "rescale" /\ Done /\ out.conn /\ Len(inp.ma) >= 2) =>
 (* ---------------- emission ------------------------------------------------ *)
 Pick(n) == n = 1 \/ RandomElement(1..n) = 1
 MaskSeqs(M) == [r \in DOMAIN M |-> SetToSortSeq(M[r], <)]
-Emit == (Done /\ Pick(EmitMod)) =>
+Emit == (Done /\ Pick(IF Mode = "compare" /\ Aligned(Cls) THEN EmitAligned ELSE EmitMod)) =>
    CASE Mode = "compare" ->
           PrintT(ToJson([t |-> "cmp", cls |-> Cls, m |-> inp.m, s |-> inp.s, src |-> inp.src, arg |-> inp.arg,
                          a0 |-> inp.a0, b0 |-> inp.b0, a |-> inp.a, b |-> inp.b,
